@@ -257,6 +257,7 @@ def make_body(sched: Sched, tid: int, ep: Dict[str, Any]):
             sched.log(t=sched.current if sched.current is not None else tid, ev=kind, key=list(key), msg=msg)
 
         api = ep.get("api", "plain")
+        running: List[str] = []
         for n, (op, arg) in enumerate(ep["script"]):
             sched.log(t=tid, ev="call", op=op, arg=arg, n=n)
             res: Any = "ok"
@@ -300,13 +301,21 @@ def make_body(sched: Sched, tid: int, ep: Dict[str, Any]):
                     elif api == "structured":
                         from netqasm.sdk.classical_communication.message import StructuredMessage
                         sock.send_structured(StructuredMessage(header="h", payload=arg))
+                    elif api == "structured-running-list":
+                        # the payload is a list the sender keeps extending and sending again: what is received is the content
+                        # at the time of each send (the logged message is that snapshot)
+                        from netqasm.sdk.classical_communication.message import StructuredMessage
+                        running.append(arg.split("+")[-1])
+                        sock.send_structured(StructuredMessage(header="h", payload=running))
                     else:
                         sock.send(arg)
                 elif op in ("recv", "recvnb"):
-                    fn = {"silent": "recv_silent", "structured": "recv_structured"}.get(api, "recv")
+                    fn = {"silent": "recv_silent", "structured": "recv_structured", "structured-running-list": "recv_structured"}.get(api, "recv")
                     try:
                         res = getattr(sock, fn)(block=(op == "recv"))
                         res = getattr(res, "payload", res)
+                        if isinstance(res, (list, tuple)):
+                            res = "+".join(res)
                     except RuntimeError:
                         if op == "recv":
                             raise
